@@ -26,7 +26,9 @@ DEPENDS = {
             "C05": (["R8"], "a datagram can only be forwarded on the region's circuit: the reference must not be "
                             "released or replaced while the region is live")},
     "C07": {"C06": (["R4"], "the final forward is guarded by nothing but the addon/validity verdicts"),
-            "C19": (["R6"], "one subscriber's (un)subscription must not skip another subscriber")},
+            "C19": (["R6"], "one subscriber's (un)subscription must not skip another subscriber"),
+            "C05": (["R4"], "the proxy's own bookkeeping includes the resend loop: an addon's injection that failed to go out "
+                            "must not stay registered, and one failed retransmission must not end the loop for everyone else")},
     "C08": {"C09": (["R6", "R8"], "round trip in plain-data mode needs the pod flag to reach every delegated decoder; "
                                    "a size query must not see a half-computed cached size")},
     "C09": {"C08": (["R1", "R2", "R3", "R6", "R7", "R8", "R9", "R10", "R11", "R12", "R13", "R14", "R15", "R16"], "subfield serializers are built from the combinators"),
